@@ -2,6 +2,7 @@ package fsnotify
 
 import (
 	"errors"
+	"path/filepath"
 
 	"golang.org/x/sys/unix"
 )
@@ -101,6 +102,18 @@ func H_unlink_open() {
 	verifAssert(ok && ev.Op == Chmod && ev.Name == e.path, "unlink with an open descriptor is reported as Chmod")
 	verifCheckList(w, verifLivePaths("", ""), " while the unlinked file is still open")
 	verifJ(w, " after IN_ATTRIB")
+	// the watched parent (if any) reports the unlink of the name
+	dir, base := verifDir(e.path), filepath.Base(e.path)
+	if pi := verifEntryByPath(dir); pi >= 0 && pi != i && dir+"/"+base == e.path {
+		evd, okd := verifDeliverNamed(w, verifTable[pi].wd, unix.IN_DELETE, 0, base)
+		verifAssert(okd && evd.Op == Remove && evd.Name == e.path, "the watched parent reports the unlink")
+		verifCheckList(w, verifLivePaths("", ""), " after the parent reported the unlink of a file that is still open")
+		verifReach("unlink-open-parent-watched")
+	}
+	// the file lives on through the open descriptor, and so does its watch
+	evw, okw := verifDeliver(w, e.wd, unix.IN_MODIFY, 0)
+	verifAssert(okw && evw.Op == Write && evw.Name == e.path, "the watch of a file unlinked while open lasts until the last descriptor is closed: a write through it is still reported")
+	verifJ(w, " after a write to the unlinked file")
 	verifK.marks[i].state = kDying // last descriptor closed: the kernel destroys the mark
 	ev2, ok2 := verifDeliver(w, e.wd, unix.IN_DELETE_SELF, 0)
 	verifAssert(ok2, "reader keeps running")
